@@ -76,8 +76,10 @@ pub fn search(_tier: &str, _only: Option<&str>) {
     let mut rep = Report::new("lterm", &format!("{} terms (3 variables, numbers, bool, string, proper/improper lists up to length 3 nested once, pairs): all pairs for ==/hash, all triples of a 24-term subset for transitivity, every list operation on every term", uni.len()));
     let vars: Vec<T> = vec![LTerm::var("x0"), LTerm::var("x1"), LTerm::var("x2")];
     let built: Vec<T> = uni.iter().map(|m| m.build(&vars)).collect();
-    // a second, separately built copy: equality must not depend on sharing
-    let built2: Vec<T> = uni.iter().map(|m| m.build(&vars)).collect();
+    // a second, separately built copy: equality must not depend on sharing - not even for variables: each variable of
+    // the copy lives in its OWN cell (a cloned handle made unique through as_mut), with the same VarID
+    let vars2: Vec<T> = vars.iter().map(|v| { let mut c = v.clone(); let _ = AsMut::<proto_vulcan::lterm::LTermInner<U, E>>::as_mut(&mut c); c }).collect();
+    let built2: Vec<T> = uni.iter().map(|m| m.build(&vars2)).collect();
     for (i, a) in uni.iter().enumerate() { for (j, b) in uni.iter().enumerate() {
         rep.case("eq", format!("{} == {}", a.show(), b.show()));
         let want = a.norm() == b.norm();
